@@ -255,8 +255,8 @@ Fixpoint jv_tags (j : jv) : list str :=
   | _ => []
   end.
 
-(* ---- the fragment F of the round-trip theorem: the class is not function-local, does not also derive from a builtin type
-   (the leaf / list tests of to_json come before the serialiser tests: finding C18-d), and its own tag names it -- i.e. the
+(* ---- the fragment F of the round-trip theorem: the class is not function-local, and its own tag names it (classes that also
+   derive from a builtin type are inside F since 8efc58f: to_json asks serialisers before the builtin leaf / list tests) -- i.e. the
    C19 decision table, read on this world, resolves "<module>.<qualified name>" to the class itself
    (C18_fragment_is_named_classes gives the structural conditions under which that holds) *)
 Definition names_itself (w : world) (c : cls) : bool :=
@@ -265,8 +265,7 @@ Definition names_itself (w : world) (c : cls) : bool :=
   | RByRegistry c' _ => cls_eqb c' c && kind_eqb (c_kind c) KReg
   | RError _ => false
   end.
-Definition no_builtin_base (c : cls) : bool := match c_base c with None => true | Some _ => false end.
-Definition cls_ok (w : world) (c : cls) : bool := negb (is_local c) && no_builtin_base c && names_itself w c.
+Definition cls_ok (w : world) (c : cls) : bool := negb (is_local c) && names_itself w c.
 Definition value_ok {P} (w : world) (v : value P) : bool := in_grammar v && forallb (cls_ok w) (objects v).
 
 (* ---- sample user code = the classes of the correspondence harness (harness/c18.py), payload = a JSON value *)
